@@ -2,6 +2,8 @@
 Regular expressions as extracted from the source (the subset the repo's two name patterns use) and a
 matcher with Python's anchor semantics: `^` matches at position 0, `$` matches at the end of the string
 or just before a final newline. `re.match` semantics: the match starts at 0 and may end anywhere.
+
+Strings are lists of code points (`Str`), so lone surrogates and every other Python `str` are representable.
 -/
 namespace FlowRecord
 
@@ -15,4 +17,44 @@ inductive Rx where
   | eol : Rx                              -- $
   deriving Repr, DecidableEq
 
+/-- A Python `str`: the list of its code points. -/
+abbrev Str := List Nat
+
+namespace Rx
+
+/-- A position of the matcher: "still at offset 0" and the text that is left. -/
+abbrev Pos := Bool × Str
+
+/-- `x` is in the character class (inclusive code point ranges). -/
+def clsMem (c : List (Nat × Nat)) (x : Nat) : Bool := c.any (fun r => r.1 ≤ x && x ≤ r.2)
+
+/-- Python's `$` (no MULTILINE): at the very end, or just before a newline that ends the string. -/
+def atEol (rest : Str) : Bool := rest == [] || rest == [10]
+
+/-- `q` has strictly less text left than `p` (an iteration of `*` that consumed something). -/
+def shorter (p q : Pos) : Bool := q.2.length < p.2.length
+
+/-- All positions reachable by iterating `f` zero or more times; iterations that consume nothing lead
+    to the same position and are dropped, so `n = |text| + 1` rounds are enough. -/
+def starN (f : Pos → List Pos) : Nat → Pos → List Pos
+  | 0, p => [p]
+  | n+1, p => p :: ((f p).filter (shorter p)).flatMap (starN f n)
+
+/-- All positions at which a match of `r` that starts at `p` can end (backtracking matcher, every choice). -/
+def ends : Rx → Pos → List Pos
+  | .eps, p => [p]
+  | .cls c, p =>
+    match p.2 with
+    | [] => []
+    | x :: xs => if clsMem c x then [(false, xs)] else []
+  | .seq a b, p => (ends a p).flatMap (ends b)
+  | .opt a, p => ends a p ++ [p]
+  | .star a, p => starN (ends a) (p.2.length + 1) p
+  | .bol, p => if p.1 then [p] else []
+  | .eol, p => if atEol p.2 then [p] else []
+
+/-- `re.compile(r).match(s) is not None`. -/
+def pyMatch (r : Rx) (s : Str) : Bool := !(ends r (true, s)).isEmpty
+
+end Rx
 end FlowRecord
